@@ -67,7 +67,7 @@ func genCLIBase(t *rapid.T, o baseOpts) CLIBase {
 	var b CLIBase
 	b.Book = genBook(t, o.book)
 	lo := o.log
-	if o.big && rapid.IntRange(0, 3).Draw(t, "big_log") == 0 {
+	if o.big && rapid.IntRange(0, 3).Draw(t, "big_log") == 3 {
 		lo.MinDays, lo.MaxDays, lo.Window = 25, 70, 90
 	}
 	b.Log = genLog(t, b.Book, lo)
